@@ -324,6 +324,71 @@ func gen(repo string, w *bytes.Buffer) error {
 	fmt.Fprintf(w, "Definition shim_lock_facts : list (str * method_facts) := [\n%s\n].\n\n", strings.Join(rows, ";\n"))
 	fmt.Fprintf(w, "(* Methods that take no lock and touch nothing themselves but call a lock-taking method. *)\n")
 	fmt.Fprintf(w, "Definition shim_delegations : list (str * str) := %s.\n", tutil.CoqList(delegs))
+	// Signers: what is appended to the returned slice.  A signer that carries the receiver itself as its agent signs
+	// through the server (and its mutex); anything else - in particular a signer obtained from the underlying agent,
+	// handed out as it is - signs on the shared connection behind the server's back.
+	if m := ms["Signers"]; m != nil {
+		var handed []string
+		viaServer := map[string]bool{} // local variables bound to a composite literal that carries the receiver
+		carriesRecv := func(e ast.Expr) bool {
+			cl, ok := e.(*ast.CompositeLit)
+			if !ok {
+				return false
+			}
+			for _, el := range cl.Elts {
+				if kv, isKV := el.(*ast.KeyValueExpr); isKV {
+					el = kv.Value
+				}
+				if id, isID := el.(*ast.Ident); isID && id.Name == m.recv {
+					return true
+				}
+			}
+			return false
+		}
+		var result string
+		if m.fd.Type.Results != nil && len(m.fd.Type.Results.List) > 0 {
+			// the slice that is returned: the first operand of the final return statement
+			ast.Inspect(m.fd.Body, func(n ast.Node) bool {
+				if rs, ok := n.(*ast.ReturnStmt); ok && len(rs.Results) == 2 {
+					if id, isID := rs.Results[0].(*ast.Ident); isID && id.Name != "nil" {
+						result = id.Name
+					}
+				}
+				return true
+			})
+		}
+		ast.Inspect(m.fd.Body, func(n ast.Node) bool {
+			as, ok := n.(*ast.AssignStmt)
+			if !ok || len(as.Lhs) != 1 || len(as.Rhs) != 1 {
+				return true
+			}
+			lhs, isID := as.Lhs[0].(*ast.Ident)
+			if !isID {
+				return true
+			}
+			if as.Tok == token.DEFINE && carriesRecv(as.Rhs[0]) {
+				viaServer[lhs.Name] = true
+				return true
+			}
+			call, isCall := as.Rhs[0].(*ast.CallExpr)
+			if !isCall || lhs.Name != result {
+				return true
+			}
+			if fn, isFn := call.Fun.(*ast.Ident); !isFn || fn.Name != "append" || len(call.Args) < 2 {
+				return true
+			}
+			for _, a := range call.Args[1:] {
+				ok := carriesRecv(a)
+				if id, isArgID := a.(*ast.Ident); isArgID && viaServer[id.Name] {
+					ok = true
+				}
+				handed = append(handed, fmt.Sprintf("%v", ok))
+			}
+			return true
+		})
+		fmt.Fprintf(w, "\n(* Signers: for every value appended to the returned slice, whether it carries the server itself as its agent. *)\n")
+		fmt.Fprintf(w, "Definition signers_handed_out_via_server : list bool := %s.\n", tutil.CoqList(handed))
+	}
 	if firstErr != nil {
 		return firstErr
 	}
